@@ -286,7 +286,7 @@ class _NoPool:
     reordered = False
 
     def __init__(self, n):
-        self.submitted = n
+        self.submitted = None  # a real pool is not observed: the submission count is not checked
 
     def __enter__(self):
         return self
@@ -568,7 +568,7 @@ def run(plan, tier="quick", real_pool=False) -> RunResult:
                                     f"[{who}] records under identifiers that are no input: {extra}; inputs={stems}; "
                                     f"delivered={pool.delivered}", replay)
                     n_skip = len([s_ for s_ in stems if s_ in pre and (pre[s_][0] == "completed" or wr == "db")])
-                    if plan["parallel"] and pool.submitted != len(stems) - n_skip:
+                    if plan["parallel"] and pool.submitted is not None and pool.submitted != len(stems) - n_skip:
                         res.add(f"C14.submitted/{wr}", f"{pool.submitted} tasks submitted for {len(stems)} inputs", replay)
     finally:
         sql.close_all()
